@@ -8,6 +8,39 @@ from .spec import SpecError, parse_expr, Clause
 from . import ssa as S
 
 
+class _M(object):
+    def __init__(self, gs):
+        self.gs = gs
+
+    def group(self, i):
+        return self.gs[i - 1]
+
+
+def split_range(loc):
+    """'expr[lo:hi]' -> match-like object with groups (expr, lo, hi), brackets balanced; None if not of that form"""
+    if not loc.endswith(']'):
+        return None
+    depth = 0
+    for i in range(len(loc) - 1, -1, -1):
+        c = loc[i]
+        if c == ']':
+            depth += 1
+        elif c == '[':
+            depth -= 1
+            if depth == 0:
+                inner = loc[i + 1:-1]
+                d2 = 0
+                for j, ch in enumerate(inner):
+                    if ch in '([':
+                        d2 += 1
+                    elif ch in ')]':
+                        d2 -= 1
+                    elif ch == ':' and d2 == 0:
+                        return _M((loc[:i], inner[:j], inner[j + 1:]))
+                return None
+    return None
+
+
 class TrackDict(dict):
     """field dictionary of a probe formal: remembers which fields were read"""
 
@@ -579,11 +612,16 @@ class Verifier(Exec):
             if mi:
                 initonly = True
                 loc = mi.group(1).strip()
-            m = re.match(r'^(.*)\[(.*):(.*)\]$', loc)
+            m = split_range(loc)
             m2 = re.match(r'^(.*)\[\*\]$', loc)
             ev = SpecEval(self, st, env, None, 'modifies ' + loc)
             if m2 or m:
                 base = ev.ev(parse_expr((m2 or m).group(1)))
+                if isinstance(base, PtrV) and self.kind(base.elem) == 'array':
+                    # an array embedded in a struct (or a global array): the region is addressed by the array's own address
+                    at_ = self.U(base.elem)
+                    aaddr = self.addr_term(st, base.addr) if base.addr is not None else base.term
+                    base = SliceV(aaddr, ZERO, I(at_['len']), I(at_['len']), at_['elem'])
                 base = ev.deref(base) if isinstance(base, PtrV) else base
                 if isinstance(base, PtrV):
                     raise SpecError('modifies %s: not a slice' % loc)
@@ -963,6 +1001,29 @@ class Verifier(Exec):
             self.zero_elems(st, e, a)
         return SliceV(a, ZERO, n, cp, e)
 
+    def zero_object(self, st, tid, a):
+        """zero-initialise a fresh object at address a (large embedded arrays are described by quantified facts)"""
+        k = self.kind(tid)
+        if k == 'struct':
+            for f in self.struct_fields(tid):
+                ft = f['type']
+                fk = self.kind(ft)
+                if fk == 'array' and self.U(ft)['len'] > 16:
+                    u = self.U(ft)
+                    sa = self.subaddr(tid, f['name'], a)
+                    if self.is_scalar(u['elem']):
+                        nm = self.hs_name(u['elem'])
+                        h = self.heap_get(st, nm, self.hs_sort(u['elem']))
+                        st.heap[nm] = store(h, sa, constarr(arr(self.sort_of(u['elem'])), FALSE if self.is_bool(u['elem']) else ZERO))
+                    else:
+                        self.zero_elems(st, u['elem'], sa)
+                elif fk == 'struct':
+                    self.zero_object(st, ft, self.subaddr(tid, f['name'], a))
+                else:
+                    self.field_store(st, tid, a, f['name'], ft, self.zero(ft))
+            return
+        self.obj_store(st, tid, a, self.zero(tid))
+
     def zero_elems(self, st, e, a):
         """all elements of the fresh array a of aggregate type e are zero values (quantified per leaf heap)"""
         k = const('k!', INT)
@@ -1056,6 +1117,10 @@ class Verifier(Exec):
         ms = re.match(r'^(.*?)\s+sets\s+own\(arg(\d+)\)\s*$', etxt)
         if ms:
             etxt, sets = ms.group(1), int(ms.group(2))
+        self.effect_modifies = None
+        mm2 = re.match(r'^(.*?)\s+modifies\s+arg(\d+)\s*$', etxt)
+        if mm2:
+            etxt, self.effect_modifies = mm2.group(1), int(mm2.group(2))
         env = self.spec_env(self.scope_at_line(self.cur_line))
         t = SpecEval(self, st, env, self.old, cl.src).boolean(parse_expr(etxt))
         self.oblige(st, 'effect', '%s:%s' % (kind, fname), t, {'clause': '%s %s requires %s' % (kind, fname, etxt)}, cl.props)
@@ -1076,11 +1141,39 @@ class Verifier(Exec):
         na = self.ctx.fresh('alloc', INT)
         self.ctx.assume(le(st.alloc, na))
         st.alloc = na
+        if getattr(self, 'effect_modifies', None) is not None:
+            pv = args[self.effect_modifies]
+            if isinstance(pv, PtrV):
+                pv = self.ptr_term(st, pv)
+                regs_ = self.object_regions(pv.elem, pv.term)
+                self.check_call_frame(st, regs_)
+                self.havoc_regions(st, regs_, 'effect')
         if rt and not (self.kind(rt) == 'tuple' and not self.U(rt)['elems']):
             res = self.fresh_value('r:effect', rt, True, None)
             self.bound_new_addrs(res, rt, st)
             return res
         return None
+
+    def object_regions(self, tid, p):
+        """regions covering a whole object of type tid at address p, including nested structs and arrays of scalars"""
+        regs = []
+        k = self.kind(tid)
+        if k == 'struct':
+            regs.append(('obj', self.tname(tid), p, None))
+            for f in self.struct_fields(tid):
+                fk = self.kind(f['type'])
+                if fk == 'struct':
+                    regs += self.object_regions(f['type'], self.subaddr(tid, f['name'], p))
+                elif fk == 'array':
+                    u = self.U(f['type'])
+                    sa = self.subaddr(tid, f['name'], p)
+                    if self.is_scalar(u['elem']):
+                        regs.append(('slice', self.elem_key(u['elem']), sa, ZERO, I(u['len'])))
+                    else:
+                        regs.append(('objs', u['elem'], sa, ZERO, I(u['len'])))
+        else:
+            regs.append(('obj', self.tname(tid), p, None))
+        return regs
 
     def unknown_call(self, st, ins, what):
         raise Unsupported('call of %s has no contract (line %d)' % (what, self.cur_line))
@@ -1623,7 +1716,7 @@ class Verifier(Exec):
                         oh_ = self.heap_get(st, 'OWN:' + self.elem_key(ee), arr(arr(BOOL)))
                         st.heap['OWN:' + self.elem_key(ee)] = store(oh_, a, constarr(ARR_IB, FALSE))
                 else:
-                    self.obj_store(st, et_, a, self.zero(et_))
+                    self.zero_object(st, et_, a)
                 self.writable, self.loop_writes = saved
                 r = PtrV(a, ins['elem'])
         elif op == 'Store':
@@ -1838,6 +1931,8 @@ class Verifier(Exec):
         st.alloc = self.alloc0
         for p in fn['params']:
             v = self.fresh_value('p:' + p['name'], p['type'])
+            if isinstance(v, Opaque) and self.kind(p['type']) in ('func', 'chan'):
+                v = Opaque(v.term, v.tid, ('field', p['name']))
             st.regs['param:' + p['name']] = v
             self.param_vals[p['name']] = v
         for p in fn['freevars']:
